@@ -127,6 +127,18 @@ Proof.
   - cbn. lia.
 Qed.
 
+(* order 0 included: the tensor without modes holds no entry *)
+Lemma wf_tensor_dense (X : dense D) : dshape X <> [] -> wf_tensor D X -> wf_dense X.
+Proof. unfold wf_tensor, wf_dense, tsize. destruct (dshape X); [congruence|auto]. Qed.
+Lemma tensor_vals_data (X : dense D) : wf_tensor D X -> tensor_vals D d0 X = ddata X.
+Proof.
+  intros W. unfold tensor_vals. destruct (dshape X) as [|d s] eqn:E.
+  - unfold wf_tensor in W. rewrite E in W. cbn in W. now destruct (ddata X).
+  - apply ravelC_transpose. apply wf_tensor_dense; [rewrite E; discriminate|exact W].
+Qed.
+Lemma tensor_of_data s (l : list D) : length l = tsize s -> tensor_of D d0 s l = mkDense s l.
+Proof. destruct s as [|d s]; [reflexivity|]. intros H. apply reshapeF_1d. exact H. Qed.
+
 Lemma reshapeC2_concat (A : list (list D)) n : Forall (fun r => length r = n) A ->
   reshapeC2 D (length A) n (concat A) = A.
 Proof.
@@ -162,13 +174,13 @@ Proof.
 Qed.
 
 (* ---------------------------------------------------------------- the four round trips *)
-Theorem roundtrip_tensor b (X : dense D) : wf_dense X -> import b (export b (OTensor X)) = Some (OTensor X).
+Theorem roundtrip_tensor b (X : dense D) : wf_tensor D X -> import b (export b (OTensor X)) = Some (OTensor X).
 Proof.
   intros W. unfold C16IO.export, C16IO.export_lines. cbn [concat app C16IO.import String.eqb Ascii.eqb Bool.eqb].
   unfold import_tensor. rewrite concat_app, rd_shape_lines. cbn [bindo fst snd].
-  rewrite concat_one_per_line, ravelC_transpose by auto.
-  rewrite <- (app_nil_r (map num (ddata X))). rewrite <- W, rd_nums_num. cbn [bindo fst snd].
-  rewrite reshapeF_1d by auto. now destruct X.
+  rewrite concat_one_per_line, tensor_vals_data by auto.
+  rewrite <- (app_nil_r (map num (ddata X))). unfold wf_tensor in W. rewrite <- W, rd_nums_num. cbn [bindo fst snd].
+  rewrite tensor_of_data by auto. now destruct X.
 Qed.
 
 Theorem roundtrip_sptensor b (S : sparse D) :
